@@ -16,6 +16,13 @@ CHECKS = {
    text="SMT-decided over all 32-bit costs up to the consensus maximum and all serialized stack sizes / item counts below 2^32 (no loop, so no unrolling bound): validity <=> weight <= size+50, padding None <=> valid, annex sufficient, annex minimal off the CompactSize count edge, no panic, conversions round up / monotone / saturate. Translator validated on the repo's own test vectors against the native build on every run.",
    design_ref="DESIGN.md §2 C19",
    note="trusted: CompactSize model of elements' consensus_encode, iterator-collect model, core integer helper models, rustc MIR, z3/cvc5; outside: stacks >= 4 GiB, costs above CONSENSUS_MAX"),
+
+ "C07": dict(
+   technique="MIR->SMT symbolic execution of NodeBounds::*, LimitError::check_program and BitMachine::for_program (z3 + cvc5 must agree), inductive step per combinator against a recurrence model of the interpreter's peak usage",
+   category="model_checking",
+   text="SMT-decided over all usize type widths and child bounds: each NodeBounds constructor keeps the invariant `bound >= interpreter peak, or bound > hard limit` (one inductive step per combinator, so it covers programs of any size and shape), never overflows, check_program refuses exactly when one of the seven documented sums exceeds its limit, and for_program allocates at least source+target+extra_cells bits and extra_frames+2 frames without arithmetic overflow. The interpreter's peak usage enters as a recurrence model read off exec_with_tracker; it is validated natively on every run against the real interpreter's verif-hooks high-water marks on 12 concrete programs.",
+   design_ref="DESIGN.md §2 C07",
+   note="trusted: the recurrence model of exec_with_tracker (validated natively, not solver-checked: the real interpreter is out of CBMC's reach, see DESIGN.md), models of cmp::max / Try / vec allocation, rustc MIR, z3/cvc5; outside: jets, execution under Kani (layer 1)"),
 }
 
 NOT_APPLICABLE = {
